@@ -383,6 +383,11 @@ func TestVfStress(t *testing.T) {
 		ls = append(ls, l)
 		fmt.Fprintf(&y, "  - address: %s\n    udp-port: %d\n    tcp-port: %d\n    backends:\n    - udp://%s\n    - tcp://%s\n    - udp://bk.verif.invalid:5070\n", s.la, l.udp, l.tcp, ub, tb)
 	}
+	// one more listener whose group consists of a single host-name backend: under churn the group runs EMPTY while
+	// traffic flows (requests in that window are dropped, which is correct); afterwards it must serve again
+	solo := lst{vfFreePort(t, s.la), vfFreeTCPPort(t, s.la)}
+	ls = append(ls, solo)
+	fmt.Fprintf(&y, "  - address: %s\n    udp-port: %d\n    tcp-port: %d\n    backends:\n    - udp://solo.verif.invalid:5070\n", s.la, solo.udp, solo.tcp)
 	fmt.Fprintf(&y, "  route:\n  - dests:\n    - routed.example\n    protocol: udp\n    nexthop: %s\n  hosts:\n  - name: proxy.example.com\n    ip: %s\n", s.g.ip("10.0.1.6"), s.la)
 	cfg, err := loadConfigFromReader(strings.NewReader(y.String()))
 	if err != nil {
@@ -392,6 +397,7 @@ func TestVfStress(t *testing.T) {
 		t.Fatalf("VF-INFRA startProxy: %v", err)
 	}
 	time.Sleep(50 * time.Millisecond)
+	dynamicHostResolver.addressResolved("solo.verif.invalid", []string{dyn[0]}, nil)
 	per := vfEnvInt("VERIF_PER", 400)
 	phases := []struct {
 		name  string
@@ -408,15 +414,26 @@ func TestVfStress(t *testing.T) {
 		var wg sync.WaitGroup
 		stopChurn := make(chan struct{})
 		var cw sync.WaitGroup
+		var churnStuck int32
+		resolved := func(name string, set []string) bool { // a membership change that does not come back is an observation, not a hang of the driver
+			if atomic.LoadInt32(&churnStuck) != 0 {
+				return false
+			}
+			if _, stuck := vfWithin(30*time.Second, func() { dynamicHostResolver.addressResolved(name, set, nil) }); stuck {
+				atomic.StoreInt32(&churnStuck, 1)
+				return false
+			}
+			return true
+		}
 		if ph.churn {
-			cw.Add(1)
+			cw.Add(2)
 			go func() {
 				defer cw.Done()
 				lr := vfRand(int64(1000 + pi))
 				for {
 					select {
 					case <-stopChurn:
-						dynamicHostResolver.addressResolved("bk.verif.invalid", []string{}, nil)
+						resolved("bk.verif.invalid", []string{})
 						return
 					default:
 					}
@@ -429,8 +446,30 @@ func TestVfStress(t *testing.T) {
 					if set == nil {
 						set = []string{}
 					}
-					dynamicHostResolver.addressResolved("bk.verif.invalid", set, nil)
+					if !resolved("bk.verif.invalid", set) {
+						return
+					}
 					time.Sleep(time.Duration(200+lr.Intn(800)) * time.Microsecond)
+				}
+			}()
+			go func() { // the solo group: present / empty / present ...
+				defer cw.Done()
+				lr := vfRand(int64(2000 + pi))
+				for on := false; ; on = !on {
+					select {
+					case <-stopChurn:
+						resolved("solo.verif.invalid", []string{dyn[0]})
+						return
+					default:
+					}
+					set := []string{}
+					if on {
+						set = []string{dyn[0]}
+					}
+					if !resolved("solo.verif.invalid", set) {
+						return
+					}
+					time.Sleep(time.Duration(500+lr.Intn(3000)) * time.Microsecond)
 				}
 			}()
 		}
@@ -489,7 +528,7 @@ func TestVfStress(t *testing.T) {
 		nsent := len(sent.snapshot()) + len(sentRoute.snapshot())
 		received := int(atomic.LoadInt64(&s.udpRecv)-r0) + int(atomic.LoadInt64(&s.tcpMsg)-m0)
 		tr.Emit(vfM{"ev": "phase", "case": fmt.Sprintf("%s-listeners%d", ph.name, nl), "cls": ph.name, "churn": ph.churn, "sent": nsent, "received": received,
-			"missing": missing, "dup": dup, "noresp": noresp, "route_missing": rmiss, "alive": alive, "overlap": int(atomic.LoadInt64(&s.overlap))})
+			"missing": missing, "dup": dup, "noresp": noresp, "route_missing": rmiss, "alive": alive, "churn_stuck": atomic.LoadInt32(&churnStuck) != 0, "overlap": int(atomic.LoadInt64(&s.overlap))})
 	}
 	close(s.stop)
 	fmt.Printf("VF cases=%d events=%d\n", len(phases), len(phases))
